@@ -45,7 +45,8 @@ def run(chk: Check):
                 'refused add / sync / append; plus base + associated families merged separately.  Non-trivial = a completed '
                 'merge of >= 2 inputs of different sizes read back through the merged store')
     gen = [{'name': f'gen:{i}', 'ops': su.gen_history(chk.rng, 'C09')} for i in range(chk.n(120, 1500))]
-    su.run_property(chk, 'C09', PROPS, gen, nontrivial, extra=extra, leftovers=False)
+    su.run_property(chk, 'C09', PROPS, gen, nontrivial, scenarios=su.fieldset_order_scenarios(), extra=extra,
+                    leftovers=False)
 
 
 def replay(chk: Check, rp):
